@@ -653,6 +653,145 @@ func runC12(c *core.Ctx) core.Meta {
 	}
 
 	_ = sort.Strings
+	// ---------------- R12.8 waiters are released only after the command's results are in place ----------------
+	st8 := c.Rule("R12.8", "CommandQueue.Dequeue wakes the application threads that wait for the queue to drain; in every driver function that retires a command, no write into the command's host-side destination (encoding/binary.Read or copy into a value whose provenance ends in .Dst) is reachable after the Dequeue call: the waiter would read its buffer while the simulation goroutine is still filling it", 5)
+	{
+		deq := c.SSAFunc(driverPkg, "CommandQueue.Dequeue")
+		isHostWrite := func(in ssa.Instruction) bool {
+			cc := core.CallOf(in)
+			if cc == nil {
+				return false
+			}
+			if b, ok := cc.Value.(*ssa.Builtin); ok && b.Name() == "copy" && len(cc.Args) == 2 {
+				return strings.Contains(prov.Of(cc.Args[0]), ".Dst")
+			}
+			if cal := cc.StaticCallee(); cal != nil && cal.Pkg != nil && cal.Pkg.Pkg.Path() == "encoding/binary" && cal.Name() == "Read" && len(cc.Args) == 3 {
+				return strings.Contains(prov.Of(cc.Args[2]), ".Dst")
+			}
+			return false
+		}
+		nWrites := 0
+		seenWrite := map[ssa.Instruction]bool{}
+		for _, fn := range pd.Funcs {
+			has := false
+			for _, b := range fn.Blocks {
+				for _, in := range b.Instrs {
+					if cc := core.CallOf(in); cc != nil && deq != nil && cc.StaticCallee() == deq {
+						has = true
+					}
+				}
+			}
+			if !has {
+				continue
+			}
+			c.MarkAnalysed(fn)
+			g := core.BuildGraph(fn, 3, func(cal *ssa.Function) bool { return cal.Pkg == fn.Pkg && cal != deq })
+			for _, n := range g.NodesWhere(func(n *core.Node) bool {
+				cc := core.CallOf(n.Instr)
+				return cc != nil && cc.StaticCallee() == deq && n.Frame.Parent == nil
+			}) {
+				st8.Instances++
+				reach, okW := g.Reach(core.After(n, nil), core.WalkOpts{ForwardOnly: true})
+				var late *core.Node
+				for m := range reach {
+					if isHostWrite(m.Instr) && (late == nil || m.ID < late.ID) {
+						late = m
+					}
+				}
+				st8.Ob(okW && late == nil)
+				if late != nil {
+					c.ReportAt("R12.8", fn, late.Instr.Pos(), "host-write-after-dequeue:"+core.FuncName(late.Fn()), "the command's host destination is written after CommandQueue.Dequeue released the threads waiting for the queue: MemCopyD2H / DrainCommandQueue can return before the data is in the caller's buffer")
+				}
+			}
+			for _, n := range g.Nodes {
+				if isHostWrite(n.Instr) && !seenWrite[n.Instr] {
+					seenWrite[n.Instr] = true
+					nWrites++
+				}
+			}
+		}
+		st8.Sample("%d host-destination writes in functions that retire commands", nWrites)
+		if nWrites < 2 {
+			c.Report(core.Finding{Rule: "R12.8", Kind: "floor", Pkg: driverPkg, Func: "-", Detail: "host-writes", Msg: fmt.Sprintf("%d writes into a command's host destination recognised, 3 confirmed by hand: the rule lost its subject", nWrites)})
+		}
+	}
+
+	// ---------------- R12.9 nothing is traced for a command after its waiters were released ----------------
+	st9 := c.Rule("R12.9", "in the driver's command dispatch (Driver.processOneCommand with its callees; a call through the Middleware interface counts as a release when an implementation of the method in the package reaches CommandQueue.Dequeue) no tracing.StartTask is reachable after a point that can release the threads waiting for the queue: the released application thread may end the simulation and close the tracers while the simulation goroutine is still starting a task for the finished command", 2)
+	if root := c.MustFunc("R12.9", driverPkg, "Driver.processOneCommand"); root != nil {
+		deq := c.SSAFunc(driverPkg, "CommandQueue.Dequeue")
+		// functions of the package that can reach Dequeue
+		reaches := map[*ssa.Function]bool{}
+		changed := true
+		for changed {
+			changed = false
+			for _, fn := range pd.Funcs {
+				if reaches[fn] {
+					continue
+				}
+				for _, b := range fn.Blocks {
+					for _, in := range b.Instrs {
+						if cc := core.CallOf(in); cc != nil {
+							if cal := cc.StaticCallee(); cal != nil && (cal == deq || reaches[cal]) {
+								if !reaches[fn] {
+									reaches[fn] = true
+									changed = true
+								}
+							}
+						}
+					}
+				}
+			}
+		}
+		mayRelease := func(in ssa.Instruction) bool {
+			cc := core.CallOf(in)
+			if cc == nil {
+				return false
+			}
+			if cal := cc.StaticCallee(); cal != nil {
+				return cal == deq
+			}
+			if cc.IsInvoke() {
+				for fn := range reaches {
+					if fn.Name() == cc.Method.Name() && fn.Signature.Recv() != nil && types.Implements(fn.Signature.Recv().Type(), cc.Value.Type().Underlying().(*types.Interface)) {
+						return true
+					}
+				}
+			}
+			return false
+		}
+		isStart := func(in ssa.Instruction) bool {
+			cc := core.CallOf(in)
+			if cc == nil {
+				return false
+			}
+			cal := cc.StaticCallee()
+			return cal != nil && cal.Pkg != nil && strings.HasSuffix(cal.Pkg.Pkg.Path(), "/tracing") && cal.Name() == "StartTask"
+		}
+		c.MarkAnalysed(root)
+		g := core.BuildGraph(root, 5, func(cal *ssa.Function) bool { return cal.Pkg == root.Pkg && cal != deq })
+		rel := g.NodesWhere(func(n *core.Node) bool { return mayRelease(n.Instr) })
+		starts := g.NodesWhere(func(n *core.Node) bool { return isStart(n.Instr) })
+		st9.Sample("%d release points and %d StartTask calls in the command dispatch", len(rel), len(starts))
+		if len(rel) < 2 || len(starts) < 1 {
+			c.Report(core.Finding{Rule: "R12.9", Kind: "floor", Pkg: driverPkg, Func: "Driver.processOneCommand", Detail: "subject", Msg: fmt.Sprintf("%d release points and %d StartTask calls recognised in the command dispatch: the rule lost its subject", len(rel), len(starts))})
+		}
+		for _, n := range rel {
+			st9.Instances++
+			reach, okW := g.Reach(core.After(n, nil), core.WalkOpts{ForwardOnly: true})
+			var late *core.Node
+			for _, s := range starts {
+				if reach[s] {
+					late = s
+				}
+			}
+			st9.Ob(okW && late == nil)
+			if late != nil {
+				c.ReportAt("R12.9", late.Fn(), late.Instr.Pos(), "start-task-after-release:"+core.FuncName(n.Fn()), "tracing.StartTask for the command is reachable after "+core.InstrString(n.Instr)+" in "+core.FuncName(n.Fn())+", which can release the threads waiting for the queue: the task is started for a command that is already finished, possibly after the application closed the tracers (nil-map panic in the DB tracer)")
+			}
+		}
+	}
+
 	return core.Meta{Level: "other",
 		Explanation: "Structural conditions whose absence is the lost wake-up, the data race or the reordering, decided on SSA of amd/driver: capacity of channels targeted by non-blocking sends, the subscribe/test/wait/re-test shape of the drain loop, a guarded-by lockset analysis for five field/mutex pairs, no mixed atomic/plain access, FIFO ownership of the command list, one command at a time per queue (start guard, IsRunning pairing), the frozen inventory of goroutines, selects, engine runs and signal receivers, and the hand-off between runAsync and runEngine (a run request recorded while the engine is flagged as running is honoured before the flag is cleared).",
 		NotDecided:  "liveness under all interleavings (a model-checking question); memory effects between commands",
